@@ -766,6 +766,29 @@ def check_conditioning(ctx, fi, be):
             break
         P = m_w.group(1)
     Pn0 = P.replace(' ', '')
+    # `self.cliques` IS `self.junction_tree.maximal_cliques()` when the constructor binds both from one tree object (a deterministic walk of
+    # an immutable tree) and nothing re-binds either afterwards
+    same_list = None
+    init_ = ctx.repo.nfunc(GM, 'GraphicalModel.__init__') if ctx.repo.has_func(GM, 'GraphicalModel.__init__') else None
+    if init_ is not None:
+        tr_ = [U(s_.value) for s_ in ast.walk(init_.node) if isinstance(s_, ast.Assign) and len(s_.targets) == 1 and U(s_.targets[0]) == 'self.junction_tree'
+               and isinstance(s_.value, ast.Name)]
+        cq_ = [U(s_.value) for s_ in ast.walk(init_.node) if isinstance(s_, ast.Assign) and len(s_.targets) == 1 and U(s_.targets[0]) == 'self.cliques']
+        rebinds = [m_ for m_, f_ in ctx.repo.nmethods(GM, 'GraphicalModel').items() if m_ != '__init__' and any(
+            isinstance(s_, (ast.Assign, ast.AugAssign)) and any(U(t_) in ('self.cliques', 'self.junction_tree') for t_ in (s_.targets if isinstance(s_, ast.Assign) else [s_.target]))
+            for s_ in ast.walk(f_.node))]
+        if len(tr_) == 1 and len(cq_) == 1 and cq_[0] == tr_[0] + '.maximal_cliques()' and not rebinds:
+            same_list = 'self.junction_tree.maximal_cliques()'
+    if same_list:
+        Pn0 = Pn0.replace(same_list, 'self.cliques')
+        for k_, v_ in list(entry.items()):
+            if isinstance(v_, ast.AST) and same_list in U(v_).replace(' ', ''):
+                v2_ = clone(v_)
+                for n_ in ast.walk(v2_):
+                    for fld_, ch_ in ast.iter_fields(n_):
+                        if isinstance(ch_, ast.Call) and U(ch_).replace(' ', '') == same_list:
+                            setattr(n_, fld_, ast.parse('self.cliques', mode='eval').body)
+                entry[k_] = v2_
     # spellings of the same union: set().union(*X) for set.union(*X) (equal whenever X is non-empty - every attribute lies in some clique), a
     # generator for a list comprehension as the starred argument
     Pn0 = Pn0.replace('set().union(*', 'set.union(*')
